@@ -130,7 +130,16 @@ func (s *Service) ScheduleJob(ctx context.Context,
 		case <-time.After(time.Until(runtime)):
 			// It is possible that the job is already active, so check that first before proceeding.
 			if job.active.Load() {
-				s.log.Trace().Str("job", name).Time("scheduled", runtime).Msg("Already running; job not running")
+				// A run request has been accepted for this job (it is marked active and its
+				// signal is in, or about to be put in, the run channel).  The timer fired
+				// before we saw that signal, so honour it here rather than dropping the job.
+				s.log.Trace().Str("job", name).Time("scheduled", runtime).Msg("Run already requested; job running")
+				<-job.runCh
+				monitorJobStartedOnSignal(class)
+				jobFunc(ctx)
+				s.log.Trace().Str("job", name).Time("scheduled", runtime).Msg("Job complete")
+				finaliseJob(job)
+				job.active.Store(false)
 				break
 			}
 			s.jobsMutex.Lock()
